@@ -47,6 +47,23 @@ fn inv_mod_p(b: &BigInt) -> BigInt {
     b.modpow(&(p() - 2), &p())
 }
 
+/// b^-1 mod n by the extended Euclidean algorithm (None when gcd(b, n) != 1).
+fn inv_mod(b: &BigInt, n: &BigInt) -> Option<BigInt> {
+    let (mut r0, mut r1) = (n.clone(), ((b % n) + n) % n);
+    let (mut t0, mut t1) = (BigInt::zero(), BigInt::one());
+    while !r1.is_zero() {
+        let q = &r0 / &r1;
+        let r2 = &r0 - &q * &r1;
+        r0 = std::mem::replace(&mut r1, r2);
+        let t2 = &t0 - &q * &t1;
+        t0 = std::mem::replace(&mut t1, t2);
+    }
+    if r0 != BigInt::one() {
+        return None;
+    }
+    Some(((t0 % n) + n) % n)
+}
+
 pub fn short_string(s: &str) -> BigInt {
     s.bytes().fold(BigInt::zero(), |acc, b| acc * 256 + b)
 }
@@ -142,14 +159,43 @@ pub fn expected(op: &str, t: &Ty, a: &[BigInt]) -> Option<Expect> {
         "OOverflowingSub" => ovf(&a[0] - &a[1]),
         "OOverflowingMul" => ovf(&a[0] * &a[1]),
         "OSqrt" => Expect::Success(vec![isqrt(&a[0])]),
-        "OWideMul" => {
+        "OWideMul" | "OWideSquare" => {
+            let b = if op == "OWideSquare" { &a[0] } else { &a[1] };
             let wt = match t {
+                Ty::U256 => Ty::U512,
                 Ty::U(128) => Ty::U256,
                 Ty::U(w) => Ty::U(2 * w),
                 Ty::I(w) => Ty::I(2 * w),
                 _ => return None,
             };
-            Expect::Success(enc(&wt, &(&a[0] * &a[1])))
+            Expect::Success(enc(&wt, &(&a[0] * b)))
+        }
+        "OMulModN" => Expect::Success(enc(&Ty::U256, &((&a[0] * &a[1]) % &a[2]))),
+        "OU512DivRem" => {
+            let mut v = enc(&Ty::U512, &(&a[0] / &a[1]));
+            v.extend(enc(&Ty::U256, &(&a[0] % &a[1])));
+            Expect::Success(v)
+        }
+        "OInvMod" | "ODivModN" => {
+            // unique solution when gcd = 1 and n > 1
+            let (num, den, n) = if op == "OInvMod" {
+                (BigInt::one(), a[0].clone(), a[1].clone())
+            } else {
+                (a[0].clone(), a[1].clone(), a[2].clone())
+            };
+            let none = Expect::Success(vec![BigInt::one(), BigInt::zero(), BigInt::zero()]);
+            if n <= BigInt::one() {
+                none
+            } else {
+                match inv_mod(&den, &n) {
+                    None => none,
+                    Some(inv) => {
+                        let mut v = vec![BigInt::zero()];
+                        v.extend(enc(&Ty::U256, &((num * inv) % &n)));
+                        Expect::Success(v)
+                    }
+                }
+            }
         }
         "OFeltDiv" => Expect::Success(vec![(&a[0] * inv_mod_p(&a[1])) % p()]),
         _ => return None,
